@@ -71,10 +71,11 @@ type rootSpec struct {
 }
 
 const (
-	appIBB      = 1 << iota // an ibb.Listener exists for the session and the application accepts connections
-	appHistory              // the application is iterating over a history query with id q1
-	appReceipts             // the application is waiting for the receipt of message r1
-	appMUC                  // the application is joining room@conf.example.net/me
+	appIBB       = 1 << iota // an ibb.Listener exists for the session and the application accepts connections
+	appHistory               // the application is iterating over a history query with id q1
+	appReceipts              // the application is waiting for the receipt of message r1
+	appMUC                   // the application is joining room@conf.example.net/me
+	appIBBGaveUp             // an earlier Listener.Expect(ctx, room@conf.example.net/me, "s1") of the application ended with its context
 )
 
 type pkgSpec struct {
@@ -416,6 +417,7 @@ var pkgs = []pkgSpec{
 			`<unknown xmlns='urn:unknown' type='get' id='x7'><ping xmlns='` + nsPing + `'/></unknown>`,
 			`<iq xmlns='urn:inner' type='get' id='x8'><ping xmlns='` + nsPing + `'/></iq>`,
 			" ",
+			"junk",
 		},
 	},
 }
